@@ -387,12 +387,12 @@ def _r4_refusals(model: Model, run: Run, folder: Folder) -> None:
         g = ' && '.join(pos)
         if not pos:
             continue
-        if any('peer_as' in x for x in pos):
-            kind = 'peer-as'
-        elif any("RouterID('0.0.0.0')" in x for x in pos):
+        if any("RouterID('0.0.0.0')" in x for x in pos):
             kind = 'router-id-zero'
         elif any('router_id' in x for x in pos):
             kind = 'router-id-collision'
+        elif any('peer_as' in x for x in pos):
+            kind = 'peer-as'
         elif any('hold_time' in x for x in pos):
             kind = 'hold-time'
         else:
